@@ -63,7 +63,10 @@ def fmt_val(v):
     return ", ".join("%s=%s" % (k, v[k][1] if is_const(v[k]) else v[k][0]) for k in sorted(v))
 
 
-def run(ctx):
+def delete_rule(ctx, rid, title="delete is last: table, gather/sync completed before, nothing raising after", floor=60, only_table_for_partial=False):
+    """C12.R1.  With only_table_for_partial the rule is restricted to clause
+    (a) for allow_incomplete=True valuations (C09: a default partial reap
+    deletes nothing)."""
     prog = ctx.prog
     crop = prog.need_cls("xyzpy.gen.cropping.Crop")
     entries = []
@@ -81,11 +84,13 @@ def run(ctx):
     need(len(deleters) >= 1, "anchor lost: no function removes the crop directory with shutil.rmtree(<x>.location)")
 
     inter = Inter(ctx, primitive(ctx), track=set(FLAGS) | {"default_result"})
-    r1 = ctx.rule("C12.R1", "delete is last: table, gather/sync completed before, nothing raising after", floor=60)
+    r1 = ctx.rule(rid, title, floor=floor)
     n_vals = 0
     for f in entries:
         spec = {p: FLAGS[p] for p in f.params if p in FLAGS}
         for val in valuations(spec):
+            if only_table_for_partial and not truth(val.get("allow_incomplete", FALSE)):
+                continue
             n_vals += 1
             fl = inter.flow(f, val)
             g = fl.cfg
@@ -99,14 +104,14 @@ def run(ctx):
             # (a) table
             if dels and not eff:
                 d = g.nodes[dels[0]]
-                r1.bad(ctx.finding("C12.R1", f, d.stmt, "the crop can be deleted although the effective clean_up is False (%s): clean_up / allow_incomplete are not honoured as documented" % vtxt,
+                r1.bad(ctx.finding(rid, f, d.stmt, "the crop can be deleted although the effective clean_up is False (%s): clean_up / allow_incomplete are not honoured as documented" % vtxt,
                                    construct="delete-when-clean_up-false " + d.text()[:80], path=vtxt), "R1a %s [%s]" % (f.name, vtxt))
             elif (not dels) and eff:
-                r1.bad(ctx.finding("C12.R1", f, f.node, "the crop is never deleted although the effective clean_up is True (%s)" % vtxt,
+                r1.bad(ctx.finding(rid, f, f.node, "the crop is never deleted although the effective clean_up is True (%s)" % vtxt,
                                    construct="no-delete-when-clean_up-true", path=vtxt), "R1a %s [%s]" % (f.name, vtxt))
             else:
                 r1.ok("R1a %s [%s]: deletion %s, as documented" % (f.name, vtxt, "possible" if dels else "impossible"))
-            if not dels:
+            if not dels or only_table_for_partial:
                 continue
             gathers = [nid for nid, k in ev.items() if "GATHER" in k]
             syncs = [nid for nid, k in ev.items() if "SYNC" in k]
@@ -123,16 +128,16 @@ def run(ctx):
                         else:
                             gdone.append(gi)
                     if not gdone:
-                        r1.bad(ctx.finding("C12.R1", f, dn.stmt, "the crop is deleted in a function that never gathers the results (%s)" % vtxt,
+                        r1.bad(ctx.finding(rid, f, dn.stmt, "the crop is deleted in a function that never gathers the results (%s)" % vtxt,
                                            construct="delete-without-gather " + dn.text()[:80], path=vtxt), "R1b %s" % f.name)
                     elif not any(g.completes_before(x, d, feasible=feas) for x in gdone if x != d):
-                        r1.bad(ctx.finding("C12.R1", f, dn.stmt, "the crop can be deleted before the results were completely gathered, or after the gather failed (%s): `%s` is not preceded by the normal completion of the Reaper block on every path" % (vtxt, dn.text()[:60]),
+                        r1.bad(ctx.finding(rid, f, dn.stmt, "the crop can be deleted before the results were completely gathered, or after the gather failed (%s): `%s` is not preceded by the normal completion of the Reaper block on every path" % (vtxt, dn.text()[:60]),
                                            construct="delete-before-gather " + dn.text()[:80], path=vtxt), "R1b %s" % f.name)
                     else:
                         r1.ok("R1b %s [%s]: `%s` only after the gather completed normally" % (f.name, vtxt, dn.text()[:40]))
                     if truth(val.get("sync", FALSE)) and f.name in ("reap_harvest", "reap_samples"):
                         if not any(g.completes_before(s, d, feasible=feas) for s in syncs if s != d):
-                            r1.bad(ctx.finding("C12.R1", f, dn.stmt, "with sync the crop can be deleted before the harvester / sampler merge-and-save completed (%s)" % vtxt,
+                            r1.bad(ctx.finding(rid, f, dn.stmt, "with sync the crop can be deleted before the harvester / sampler merge-and-save completed (%s)" % vtxt,
                                                construct="delete-before-sync " + dn.text()[:80], path=vtxt), "R1b-sync %s" % f.name)
                         else:
                             r1.ok("R1b %s [%s]: deletion only after the sync call completed" % (f.name, vtxt))
@@ -142,7 +147,7 @@ def run(ctx):
                     an = g.nodes[a]
                     calls = node_calls(an)
                     if calls and an.kind not in ("exit", "raise"):
-                        r1.bad(ctx.finding("C12.R1", f, an.stmt if an.stmt is not None else f.node,
+                        r1.bad(ctx.finding(rid, f, an.stmt if an.stmt is not None else f.node,
                                            "`%s` may raise after the crop was already deleted by `%s` (%s): the reap fails and the crop is gone, so a corrected retry cannot deliver the results" % (an.text()[:60], dn.text()[:60], vtxt),
                                            construct="raise-after-delete %s ;; %s" % (dn.text()[:60], an.text()[:60]), path=vtxt), "R1d %s" % f.name)
                         break
@@ -150,6 +155,12 @@ def run(ctx):
                     r1.ok("R1d %s [%s]: nothing that may raise follows `%s`" % (f.name, vtxt, dn.text()[:40]))
     ctx.extra["configurations_enumerated"] = n_vals
     ctx.extra["exhaustive"] = True
+    return r1, entries
+
+
+def run(ctx):
+    prog = ctx.prog
+    r1, entries = delete_rule(ctx, "C12.R1")
 
     # R2 decision functions over their complete input space
     shared.decision_table_rule(ctx, "C12.R2")
